@@ -419,6 +419,7 @@ func discharge(m *Machine, h HarnessSpec, rep *HarnessReport, overlay map[string
 		expectSat[e] = true
 	}
 	var toReplay []int
+	oblOf := map[int]*Obligation{} // failure index -> obligation (for model enumeration)
 	for i, o := range obls {
 		r := results[i]
 		if r.cross {
@@ -463,6 +464,7 @@ func discharge(m *Machine, h HarnessSpec, rep *HarnessReport, overlay map[string
 				or.Model = map[string]string{} // no symbolic input involved: replay with the defaults
 			}
 			toReplay = append(toReplay, len(rep.Failures))
+			oblOf[len(rep.Failures)] = o
 		}
 		if r.verdict != "sat" && r.verdict != "unsat" {
 			c[2]++
@@ -526,6 +528,10 @@ func discharge(m *Machine, h HarnessSpec, rep *HarnessReport, overlay map[string
 					rep.Failures[fi].Replay = "reproduced: " + o.Panic
 				case o.Panic != "":
 					rep.Failures[fi].Replay = "reproduced (panic): " + o.Panic
+				case o.Skipped && h.ReplayModels > 1 && oblOf[fi] != nil:
+					// the native replay entry constrains its inputs further than the encoding (e.g. "is the encoding of a point");
+					// enumerate further models of the same query and replay them until one satisfies the native assumption
+					rep.Failures[fi].Replay = enumerateModels(m, h, overlay, oblOf[fi], rep.Failures[fi].Model, nondetNames, to, id)
 				case o.Skipped:
 					rep.Failures[fi].Replay = "spurious: assumption not satisfied natively"
 				case containsStr(o.Failed, id) || (id == "" && len(o.Failed) > 0):
@@ -541,6 +547,65 @@ func discharge(m *Machine, h HarnessSpec, rep *HarnessReport, overlay map[string
 	if h.Validate > 0 && !h.NoReplay && !hasHavoc(h) && len(m.nondets) > 0 {
 		validate(m, h, rep, overlay)
 	}
+}
+
+// enumerateModels asks the solver for up to h.ReplayModels-1 further satisfying assignments of obligation o (each
+// blocked on the symbolic inputs of the previous ones) and replays them natively in one batch.
+func enumerateModels(m *Machine, h HarnessSpec, overlay map[string][]byte, o *Obligation, first map[string]string, nondetNames []string, to int, id string) string {
+	sc, _, used := m.script(o, true)
+	var want []string
+	for _, n := range nondetNames {
+		if used[n] {
+			want = append(want, n)
+		}
+	}
+	z := startSolver(solverFor(m), to)
+	defer z.close()
+	block := func(mod map[string]string) string {
+		var b strings.Builder
+		b.WriteString("(assert (not (and true")
+		for _, n := range want {
+			if v, ok := mod[n]; ok {
+				fmt.Fprintf(&b, " (= %s %s)", n, v)
+			}
+		}
+		b.WriteString(")))\n")
+		return b.String()
+	}
+	extra := block(first)
+	var inputs [][]string
+	var models []map[string]string
+	for k := 1; k < h.ReplayModels; k++ {
+		v, mod := z.query(sc+extra, want)
+		if z.dead {
+			z = startSolver(solverFor(m), to)
+		}
+		if v != "sat" || mod == nil {
+			break
+		}
+		models = append(models, mod)
+		inputs = append(inputs, m.modelInputs(mod))
+		extra += block(mod)
+	}
+	if len(inputs) == 0 {
+		return "spurious: assumption not satisfied natively (no further model)"
+	}
+	outs, err := nativeRun(h, overlay, inputs)
+	if err != nil {
+		return "error: " + err.Error()
+	}
+	skipped := 0
+	for k, o := range outs {
+		switch {
+		case o.Skipped:
+			skipped++
+		case o.Panic != "":
+			return fmt.Sprintf("reproduced (panic, model %d of %d): %s inputs=%v", k+2, len(inputs)+1, o.Panic, inputs[k])
+		case containsStr(o.Failed, id) || (id == "" && len(o.Failed) > 0):
+			return fmt.Sprintf("reproduced (model %d of %d) inputs=%v", k+2, len(inputs)+1, inputs[k])
+		}
+	}
+	return fmt.Sprintf("spurious: %d further models, %d not satisfying the native assumption, none failing natively", len(inputs), skipped)
 }
 
 func hasHavoc(h HarnessSpec) bool {
